@@ -4,7 +4,15 @@ import json, sys
 pid = sys.argv[1]
 p = [json.loads(l) for l in open("/verif/properties.jsonl") if json.loads(l)["id"] == pid][0]
 wt = f"/tmp/mut_{pid}"
-print(f"""You are helping test a verification tool by seeding realistic bugs. Work ONLY inside the git worktree {wt} (a checkout of the Python library Krukov/cashews, an async cache framework). Create it first with:  git -C /repo worktree add --detach {wt} HEAD   (if it already exists, reuse it). NEVER modify /repo itself, and do NOT read or list anything under /verif (that would spoil the experiment). Use /venv/bin/python (the library's deps are installed there; run things with PYTHONPATH={wt}). There is no network. redis/diskcache are not installed, so only the in-memory backend (and code importable without redis) can be exercised, unless you write a stub.
+redis_note = "redis/diskcache are not installed, so only the in-memory backend (and code importable without redis) can be exercised, unless you write a stub."
+if pid in ("C19", "C20"):
+    redis_note = ("The real `redis` package is not installed and no server exists. An in-process stand-in has been copied to /tmp/redis_standin (a package named `redis` implementing the part of "
+                  "redis-py's asyncio client that cashews uses, on an in-process server: SET/GET/MGET/UNLINK/EXISTS/SCAN/PEXPIRE/TTL/INCRBY/SADD/SREM/SPOP/ZADD/ZCOUNT/ZREMRANGEBYSCORE/BITFIELD/"
+                  "DBSIZE/FLUSHDB/SCRIPT LOAD/EVALSHA with a small Lua interpreter, pub/sub with CLIENT TRACKING BCAST invalidation; `from redis.server import server_for; srv = server_for(url); "
+                  "srv.down = True` makes every command raise ConnectionError, `srv.drop_connections()` closes the pub/sub connections, `srv.data` is the keyspace, time is time.time()). Put it FIRST on "
+                  "sys.path in your demo (sys.path.insert(0, '/tmp/redis_standin')) and use e.g. `cashews.backends.redis.Redis('redis://x', suppress=True)` / `cache.setup('redis://x', client_side=True)`; "
+                  "read its source freely. The pytest suite does not use it (its numbers stay as they are).")
+print(f"""You are helping test a verification tool by seeding realistic bugs. Work ONLY inside the git worktree {wt} (a checkout of the Python library Krukov/cashews, an async cache framework). Create it first with:  git -C /repo worktree add --detach {wt} HEAD   (if it already exists, reuse it). NEVER modify /repo itself, and do NOT read or list anything under /verif (that would spoil the experiment). Use /venv/bin/python (the library's deps are installed there; run things with PYTHONPATH={wt}). There is no network. {redis_note}
 
 Here is a semantic property of the library that should hold:
 
